@@ -294,3 +294,30 @@ def coq_z(n):
 
 def coq_str(s):
     return '"' + s.replace('"', '""') + '"'
+
+
+# ------------------------------------------------------------------ watchdog for the real solver (harness side, no change to /repo)
+class SolveDidNotFinish(Exception):
+    """raised by the harness when one Solver.solve() passes through its main loop more often than any terminating solve can"""
+
+
+WATCHDOG_PASSES = 60000
+
+
+def install_watchdog(solver_mod):
+    """Every pass of Solver.solve()'s main loop asks the line tracker for its met dependents once.  Counting those calls per
+    tracker bounds the number of passes of ONE solve: a mutated solver that spins without evaluating anything (no attempt, no prompt)
+    is stopped with SolveDidNotFinish instead of hanging the check."""
+    DT = solver_mod.DependencyTracker
+    if getattr(DT, '_verif_watchdog', False):
+        return
+    orig = DT.met_dependents
+
+    def met_dependents(self):
+        n = self.__dict__.get('_verif_passes', 0) + 1
+        self.__dict__['_verif_passes'] = n
+        if n > WATCHDOG_PASSES:
+            raise SolveDidNotFinish('more than %d passes of the main loop' % WATCHDOG_PASSES)
+        return orig(self)
+    DT.met_dependents = met_dependents
+    DT._verif_watchdog = True
